@@ -74,6 +74,8 @@ unsafe extern "C" fn foreign_box_drop(p: *mut c_void) {
 }
 
 enum B {
+    /// payload without drop glue: only the allocator can tell whether the box was released
+    Plain(CBox<'static, [u64; 3]>),
     Box(CBox<'static, Pay>),
     Opaque(CBox<'static, gvoid>),
     ZBox(CBox<'static, ZPay>),
@@ -109,7 +111,7 @@ fn apply(st: &mut State, step: &Step, counts: &mut Vec<&'static str>) -> Result<
             if st.slots[s].is_some() {
                 return Ok("BNew noop".into());
             }
-            let kind = step.arg(1).rem_euclid(7);
+            let kind = step.arg(1).rem_euclid(8);
             let slot = match kind {
                 0 => {
                     let (p, id) = fresh(st);
@@ -135,6 +137,10 @@ fn apply(st: &mut State, step: &Step, counts: &mut Vec<&'static str>) -> Result<
                         cview::view::<BoxView, CBox<'static, Pay>>(BoxView { instance: mem as *mut c_void, drop_fn: Some(foreign_box_drop) })
                     };
                     Slot { b: B::Box(b), ids: vec![id], foreign: true }
+                }
+                7 => {
+                    let v = [step.arg(2) as u64, 0x1122_3344, !0u64];
+                    Slot { b: B::Plain(track(|| if step.arg(2) & 1 == 0 { CBox::from(v) } else { CBox::from(Box::new(v)) })), ids: vec![], foreign: false }
                 }
                 4 => {
                     Z_LIVE.fetch_add(1, Ordering::SeqCst);
@@ -179,6 +185,10 @@ fn apply(st: &mut State, step: &Step, counts: &mut Vec<&'static str>) -> Result<
                         vec![(*(v.instance as *const Pay)).id]
                     }
                     B::ZBox(_) => vec![],
+                    B::Plain(b) => {
+                        vcheck!(b[1] == 0x1122_3344 && b[2] == !0u64, "box.deref_wrong_value", "plain", "plain payload corrupted");
+                        vec![]
+                    }
                     B::Slice(b) => {
                         if party == 1 {
                             let v: SliceBoxView<Pay> = std::ptr::read(b as *const _ as *const SliceBoxView<Pay>);
@@ -262,6 +272,7 @@ fn apply(st: &mut State, step: &Step, counts: &mut Vec<&'static str>) -> Result<
                         B::Box(x) => track(|| cview::view::<_, BoxView>(x).c_drop()),
                         B::Opaque(x) => track(|| cview::view::<_, BoxView>(x).c_drop()),
                         B::ZBox(x) => track(|| cview::view::<_, BoxView>(x).c_drop()),
+                        B::Plain(x) => track(|| cview::view::<_, BoxView>(x).c_drop()),
                         B::Slice(x) => {
                             let mut v: SliceBoxView<Pay> = cview::view(x);
                             if let Some(f) = v.drop_fn {
@@ -354,7 +365,7 @@ fn state_hash(st: &State) -> u64 {
         match s {
             None => h.u64(0xff),
             Some(s) => {
-                h.u64(match s.b { B::Box(_) => 1, B::Opaque(_) => 2, B::ZBox(_) => 3, B::Slice(_) => 4, B::OpaqueSlice(_) => 5 });
+                h.u64(match s.b { B::Box(_) => 1, B::Opaque(_) => 2, B::ZBox(_) => 3, B::Slice(_) => 4, B::OpaqueSlice(_) => 5, B::Plain(_) => 6 });
                 h.u64(s.ids.len() as u64);
                 h.u64(s.foreign as u64);
             }
@@ -390,7 +401,7 @@ impl Engine for CBoxEngine {
             let s0 = rng.below(pool as u64) as i64;
             let party = if c_party && rng.chance(1, 3) { 1 } else { 0 };
             match op {
-                "BNew" => p.push(t, op, &[s0, rng.range(0, 6), rng.range(0, 4)]),
+                "BNew" => p.push(t, op, &[s0, rng.range(0, 7), rng.range(0, 4)]),
                 "BRead" | "BDrop" => p.push(t, op, &[s0, party]),
                 "BWrite" => p.push(t, op, &[s0, rng.range(0, 4)]),
                 "Tags" => p.push(t, op, &[*rng.pick(&[0, 1, -1, i32::MAX as i64, i32::MIN as i64, 77]), rng.range(0, 6)]),
